@@ -7,7 +7,11 @@
 (*   Reset      a new wired instance and chain: fork, boot, acct (per validator: "plain" / "none")   *)
 (*   Start      the signer's New() returned                                                          *)
 (*   Deliver    the driver hands attester.Attest the duty of a slot, built by the real               *)
-(*              attester.MergeDuties from the beacon node's duty entries: slot, entries [v, c, p]    *)
+(*              attester.MergeDuties from the beacon node's duty entries: op, slot, entries [v, c, p] *)
+(*              (op "sync_root": the sync committee messenger's Message with the duty the controller  *)
+(*              builds - entries in the order of the real Duty's ValidatorIndices(); Submit then      *)
+(*              carries sync committee messages, each written as the duty entry of the validator      *)
+(*              whose index it names, `by` against SigningRoot(block root, DOMAIN_SYNC_COMMITTEE))    *)
 (*   Call       logged by a pass-through in front of the real signer when SignBeaconAttestations     *)
 (*              ARRIVES: per position the validator whose account is handed (identified by the       *)
 (*              account's public key against the beacon node's validator records; 0 = nobody's) and  *)
@@ -66,7 +70,7 @@ TraceDeliver ==
     /\ IsEvent("Deliver")
     /\ LET t == Trace[l] IN
          /\ t.rid \in Rids
-         /\ Deliver(t.rid, [slot |-> t.slot, entries |-> [j \in 1..Len(t.entries) |->
+         /\ Deliver(t.rid, [op |-> IF Has(t, "op") THEN t.op ELSE "attestations", slot |-> t.slot, entries |-> [j \in 1..Len(t.entries) |->
                                [v |-> t.entries[j].v, c |-> t.entries[j].c, p |-> t.entries[j].p]]])
 
 \* the signer call arrives: what the caller hands over is written down
